@@ -14,6 +14,7 @@ TEMPLATES = {
     'iter': os.path.join(VERIF, 'verus', 'iter.vt'),
     'memsize': os.path.join(VERIF, 'verus', 'memsize.vt'),
     'hbcap': os.path.join(VERIF, 'verus', 'hbcap.vt'),
+    'l1': os.path.join(VERIF, 'verus', 'l1.vt'),
 }
 
 
